@@ -401,6 +401,10 @@ class ExprMixin:
 
     def contains(self, coll: SV, x: SV, st, fr, node):
         v = self.voc
+        if coll.t is not None and z3.is_app(coll.t) and coll.t.decl().kind() == z3.Z3_OP_ITE and coll.pt in ("list", "tuple", "set", "frozenset", "dict"):
+            # membership in a conditional container: distribute, so that the axioms of the underlying constructors can fire
+            c_, a_, b_ = coll.t.children()
+            return z3.If(c_, self.contains(SV(a_, coll.pt), x, st, fr, node), self.contains(SV(b_, coll.pt), x, st, fr, node))
         if coll.pt == "str":
             return z3.Contains(coll.t, self.unbox(x, "str").t)
         if coll.pt in ("list", "tuple"):
